@@ -117,7 +117,7 @@ def gen_sp(rng):
 
 
 def gen_ptr(rng, kind, nops):
-    k = rng.randrange(1, 6)
+    k = rng.choice([1, 2, 2, 3, 3, 4, 5])
     alive = [False] * k
     raws = []   # held?
     ops = []
@@ -139,7 +139,7 @@ def gen_ptr(rng, kind, nops):
         if not liv:
             continue
         h = rng.choice(liv)
-        g = rng.choice(liv) if rng.random() < 0.8 else h      # self-operations on purpose
+        g = rng.choice(liv) if rng.random() < 0.92 else h     # self-operations on purpose
         if shared:
             op = rng.choice(['dtor', 'asgc', 'asgc', 'asgc', 'asgm', 'asgm', 'asgn', 'asgp', 'asgp', 'swap', 'swap', 'get', 'get', 'eq'])
         else:
